@@ -293,11 +293,29 @@ def parse_items(src, toks=None, lo=0, hi=None):
     return items
 
 
+_LEX_CACHE = {}
+_ITEMS_CACHE = {}
+
+
+def _lex_cached(src):
+    key = (len(src), hash(src))
+    if key not in _LEX_CACHE:
+        _LEX_CACHE[key] = lex(src)
+    return _LEX_CACHE[key]
+
+
+def _items_cached(src, toks, lo, hi):
+    key = (len(src), hash(src), lo, hi)
+    if key not in _ITEMS_CACHE:
+        _ITEMS_CACHE[key] = parse_items(src, toks, lo, hi)
+    return _ITEMS_CACHE[key]
+
+
 def find_item(src, selector):
     """selector: 'fn:name' | 'struct:Name' | 'enum:Name' | 'const:NAME' | 'impl:Header' |
     'impl:Header::fn:name' | 'trait:Name' | 'trait:Name::fn:name' | 'macro:name' | 'mod:name::...'.
     Returns (Item, toks).  Raises KeyError if not found / ambiguous."""
-    toks = lex(src)
+    toks = _lex_cached(src)
     parts = selector.split("::")
     # re-join: selectors are kind:name pairs; names may contain '::' (e.g. impl headers with paths)
     pairs = []
@@ -314,7 +332,7 @@ def find_item(src, selector):
     lo, hi = 0, len(toks)
     item = None
     for idx, (kind, name) in enumerate(pairs):
-        items = parse_items(src, toks, lo, hi)
+        items = _items_cached(src, toks, lo, hi)
         nth = None
         m = re.match(r"^(.*)#(\d+)$", name)
         if m:
